@@ -874,16 +874,13 @@ impl ProxyServer {
 
         // sign the request
         // Add header x-ms-azure-host-authorization
-        if let (Some(key), Some(key_guid)) = (
-            self.key_keeper_shared_state
-                .get_current_key_value()
-                .await
-                .unwrap_or(None),
-            self.key_keeper_shared_state
-                .get_current_key_guid()
-                .await
-                .unwrap_or(None),
-        ) {
+        // read the key id and the secret together: two separate reads can straddle a key rotation
+        let (key_guid, key) = self
+            .key_keeper_shared_state
+            .get_current_key_guid_and_value()
+            .await
+            .unwrap_or((None, None));
+        if let (Some(key), Some(key_guid)) = (key, key_guid) {
             let input_to_sign = hyper_client::as_sig_input(head, whole_body);
             match helpers::compute_signature(&key, input_to_sign.as_slice()) {
                 Ok(sig) => {
